@@ -108,6 +108,27 @@ def r07_2(ctx):
                 obs.add((to_text(a[0]) if a else to_text(k.get("name")), acc_v.value if isinstance(acc_v, EnumV) else to_text(acc_v), k.get("is_new"), bool(k.get("is_explicit")), vt_sig(k.get("v_type"))))
             exp = ("R" + SAMPLE_LETTER[acc], acc, is_new, False, (True, 64 if "PAIR" in acc else 32))
             ctx.check(f"hex_reg[R{SAMPLE_LETTER[acc]},{'new' if is_new else 'plain'}]", obs == {exp}, str(exp), str(sorted(map(str, obs))), fn_where(idx, fi))
+    # explicit registers go through the same function: signed like every register, width by class / pair, access unknown
+    for name, toks, is_new, exp_w in (("R31", ("R", "SRC_DEST_REG", "31"), False, 32), ("P1", ("P", "SRC_DEST_REG", "1"), True, 8), ("R3:2", ("R", "SRC_DEST_REG_PAIR", "3:2"), False, 64),
+                                     ("C9", ("C", "SRC_DEST_REG", "9"), False, 32), ("M1", ("M", "SRC_DEST_REG", "1"), False, 32)):
+        def hook(interp, callee, args, kwargs, text):
+            if isinstance(callee, ClassRef) and callee.name == "Register":
+                return AObj("Register", {"args": args, "kwargs": kwargs}, label="Register(...)", opaque=True)
+            return NotImplemented
+        def once(i, name=name, toks=toks, is_new=is_new):
+            e = AObj(EXT, {"transformer": AObj("RZILTransformer", {"il_ops_holder": AObj("ILOpsHolder", {}, label="holder", opaque=True)}, label="tr")}, label="ext")
+            return i.call_function(fi, [[Tok("REG_TYPE", toks[0]), Tok(toks[1], toks[2]), Tok("__ANON_0", name)], is_new], {"is_explicit": True}, self_obj=e)
+        outs = Interp(idx, call_hook=hook).explore(once)
+        obs = set()
+        for o in outs:
+            if o.kind == "raise" or not (isinstance(o.value, AObj) and "args" in o.value.fields):
+                obs.add(("RAISE" if o.kind == "raise" else to_text(o.value)[:40],))
+                continue
+            a, k = o.value.fields["args"], o.value.fields["kwargs"]
+            acc_v = k.get("access", a[1] if len(a) > 1 else None)
+            obs.add((to_text(a[0]) if a else to_text(k.get("name")), acc_v.value if isinstance(acc_v, EnumV) else to_text(acc_v), k.get("is_new"), bool(k.get("is_explicit")), vt_sig(k.get("v_type"))))
+        exp = (name, "UNKNOWN", is_new, True, (True, exp_w))
+        ctx.check(f"hex_reg[explicit {name}{'_NEW' if is_new else ''}]", obs == {exp}, str(exp), str(sorted(map(str, obs))), fn_where(idx, fi))
     # .new flag dataflow from the productions
     for cb, exp in (("new_reg", "True"), ("reg", "False")):
         f2 = idx.func(f"RZILTransformer.{cb}")
@@ -324,6 +345,11 @@ def r07_7(ctx):
     outs = Interp(idx).explore(lambda i: i.call_function(f2, [], self_obj=reg_obj("pc", "UNKNOWN", idx, is_alias=True)))
     obs = {outcome_text(o) for o in outs}
     ctx.check("pc alias reads the packet address", obs == {"RzILOpPure *pc = U32(pkt->pkt_addr);"}, "RzILOpPure *pc = U32(pkt->pkt_addr);", str(sorted(obs)), fn_where(idx, f2))
+    # ... but PC_NEW is an operand like every other .new alias (ALIAS2OP(..., true) / READ_REG(..., true))
+    outs = Interp(idx).explore(lambda i: i.call_function(f2, [], self_obj=reg_obj("pc", "UNKNOWN", idx, is_alias=True, is_new=True)))
+    obs = {normalise(outcome_text(o).replace("\n", " ")) for o in outs}
+    exp_new = "const HexOp pc_new_op = ALIAS2OP(HEX_REG_ALIAS_PC, true); RzILOpPure *pc_new = READ_REG(pkt, &pc_new_op, true);"
+    ctx.check("PC_NEW alias is read as a .new operand", obs == {normalise(exp_new)}, exp_new, str(sorted(obs)), fn_where(idx, f2))
     f3 = idx.func("Register.get_alias_enum")
     for is_new in (True, False):
         outs = Interp(idx).explore(lambda i: i.call_function(f3, [], self_obj=reg_obj("gp", "UNKNOWN", idx, is_alias=True, is_new=is_new)))
